@@ -253,6 +253,28 @@ def run_case(case):
     if not abs(lhs - r2) <= 1e-10 * s2:
         return violated(sig, "convolve_filter_adjoint is not the adjoint: %s vs %s" % (
             lhs, r2), wit, mech="filter-adjoint", obs=obs)
+    if sum(case["rs"]) % 3 == 0:
+        # rejected calls in between (operands whose shapes do not fit the requested output):
+        # the caller's arrays must come back untouched and the valid call must repeat
+        dk, fk = dc.copy(), fc.copy()
+        ybad = y[..., :-1] if y.shape[-1] > 1 else np.concatenate([y, y], axis=-1)
+        for bad in (lambda: sp.convolve_filter_adjoint(ybad, dc, fshape, **kw),
+                    lambda: sp.convolve_data_adjoint(ybad, fc, dshape, **kw),
+                    lambda: sp.convolve_filter_adjoint(y[None], dc, fshape, **kw),
+                    lambda: sp.convolve(dc[..., None], fc, **kw)):
+            try:
+                bad()
+            except Exception:
+                pass
+        checks += 1
+        if not (np.array_equal(dc, dk) and np.array_equal(fc, fk)):
+            return violated(sig, "a rejected call (operand shapes that do not fit) left the "
+                            "caller's data / filter array modified", wit,
+                            mech="mutated-on-failure")
+        out2 = sp.convolve(dc, fc, **kw)
+        if out2.shape != out.shape or not np.array_equal(out2, out):
+            return violated(sig, "the same convolution gives another result after rejected "
+                            "calls in between", wit, mech="history-after-failure")
     nontrivial = int(np.prod(n)) > 1 or multi
     r = held(sig, obs, checks, nontrivial)
     r["tags"] = ["computed:" + mode + ":" + relcls]
